@@ -478,7 +478,7 @@ func execFn(f []string) vlib.Res {
 		return vlib.Res{Impl: impl, Oracle: or, Tags: "nt"}
 	case "rem":
 		stored, ttl, cut, now := parseT(f[1]), vlib.AtoI64(f[2]), parseT(f[3]), parseT(f[4])
-		got := int64(cache.VerifC08Remaining(stored, time.Duration(ttl), cut, now))
+		got := int64(cache.VerifC08Remaining(stored, time.Duration(ttl), cut, now, f[5:]...))
 		or := "ok"
 		if !cut.IsZero() && got > int64(cut.Sub(now)) {
 			or = "FAIL sig=CacheEntry.remaining/outlives-cut"
@@ -742,7 +742,17 @@ func genFnCase(r *vlib.R, emit func(string)) int {
 				cut = strconv.FormatInt(stored+vlib.Pick(r, []int64{1e9, 2e9, 5e9, 4e9, 6e9, 60e9, 3600e9, -1e9})+int64(r.Range(-1, 1)), 10)
 			}
 			now := stored + vlib.Pick(r, []int64{0, 1e9, 2e9, 2e9 - 1, 2e9 + 1, 5e9, 5e9 - 1, 60e9, 86400e9}) + int64(r.Range(-1, 1))
-			e(fmt.Sprintf("rem %d %d %s %s", stored, ttl, tilde(r, cut), tilde(r, fmt.Sprint(now))))
+			if cut != "z" && r.Chance(1, 3) {
+				// just after the cut (milliseconds: a refresh "about to land")
+				now = offs(cut) + vlib.Pick(r, []int64{0, 1, 1e6, 100e6, 249e6, 250e6, 251e6, 900e6})
+			}
+			state := ""
+			for _, st := range []string{"claimed", "scoped", "limited", "orig"} {
+				if r.Chance(1, 3) {
+					state += " " + st // non-time state of the entry (a claimed refresh, …): irrelevant to its deadline
+				}
+			}
+			e(fmt.Sprintf("rem %d %d %s %s%s", stored, ttl, tilde(r, cut), tilde(r, fmt.Sprint(now)), state))
 		}
 	}
 	return n
@@ -768,6 +778,7 @@ func gen(r *vlib.R, n int, tier string, emit func(string)) {
 	if tier == "thorough" {
 		slow = 6
 	}
+	emit(fmt.Sprintf("l3 lostprobe lease=%d ttl=%d", vlib.Pick(r, []int{5, 20, 60}), vlib.Pick(r, []int{3600, 43200, 172800})))
 	emit(fmt.Sprintf("l3 slowval delay=%d ttl=%d", vlib.Pick(r, []int{1500, 1800}), vlib.Pick(r, []int{2, 3, 5})))
 	emit(fmt.Sprintf("l3 inflight delay=%d", vlib.Pick(r, []int{1600, 1800})))
 	if tier == "thorough" {
